@@ -5,11 +5,14 @@
 #include "src/common.h"
 #include "vp.h"
 
+#ifndef VP_HAVE_LOG
 struct log_type *log_core;
+#endif
 int vp_fatal_seen;
 /* obligations a harness wants checked at the point where the process would die */
 void (*vp_fatal_hook)(void);
 
+#ifndef VP_HAVE_LOG
 void log_message(struct log_type *type, enum log_severity sev, const char *format, ...)
 {
     (void)type; (void)format;
@@ -32,6 +35,7 @@ void log_vmessage(struct log_type *type, enum log_severity sev, const char *form
     (void)args;
     log_message(type, sev, "%s", format);
 }
+#endif
 
 #ifndef VP_HAVE_MODULE
 void module_close_all(void) {}
